@@ -618,6 +618,14 @@ def check_pairing(ctx, rule):
         if _zip_dict(v) is not None:
             src = '[%s]' % ', '.join(U(k) for k in _zip_dict(v)[0])
             lit_keys = src
+        if isinstance(v, ast.Dict) and not v.keys:
+            # an empty dictionary filled by constant item stores in the same branch: self.headers_dict[181] = ..
+            blk0 = _enclosing_branch(st, init.node)
+            ks = [a.targets[0].slice for a in (ast.walk(blk0) if blk0 is not None else []) if isinstance(a, ast.Assign) and
+                  isinstance(a.targets[0], ast.Subscript) and U(a.targets[0].value) == 'self.headers_dict' and
+                  isinstance(a.targets[0].slice, ast.Constant) and a.lineno > st.lineno]
+            if ks:
+                v = ast.Dict(keys=ks, values=[ast.Constant(value=None) for _ in ks])
         if isinstance(v, ast.Call) and 'fromkeys' in U(v.func) and v.args:
             src = U(v.args[0])
         elif isinstance(v, ast.Name):
